@@ -45,6 +45,7 @@ type Control struct {
 }
 
 type Ctx struct {
+	respSpec  bool            // ruleTemplates reads spec/responses.spec
 	sqlFacets map[string]bool // when set, compareToSpec judges only these facets of a statement
 	P        *Program
 	Prop     string
